@@ -60,6 +60,7 @@ def required(tier):
         "with_keyword": 20,
         "with_action_names": 30,
         "with_ignore_case": 20,
+        "with_named_matches": 30,
     }
     for s in SHAPES:
         d["shape." + s] = 10
@@ -171,7 +172,17 @@ def gen_modular(rng):
                 tagged.add(k)
         if tagged:
             feats.add("actions")
-    return {"shape": shape, "graph": graph, "files": files, "alias": alias, "locals": locals_, "rules": rules, "override": override, "fqn": fqn, "feats": feats, "dirs": dirs, "tagged": tagged}
+    named = set()
+    if rng.random() < 0.25:
+        # rules with named matches (objects are built for them) - in imported files and/or the root
+        for k in sorted(rules):
+            if (override is None or k != override[0]) and k not in tagged and rng.random() < 0.4:
+                named.add(k)
+        if rng.random() < 0.5:
+            named = set(k for k in named if k[0] != "root")
+        if named:
+            feats.add("named")
+    return {"shape": shape, "graph": graph, "files": files, "alias": alias, "locals": locals_, "rules": rules, "override": override, "fqn": fqn, "feats": feats, "dirs": dirs, "tagged": tagged, "named": named}
 
 
 def tag(_, nodes):
@@ -250,10 +261,22 @@ def duplicated_helpers(m):
     return any(len(v) > 1 for v in names.values())
 
 
-def alt_text(alt):
+def alt_text(alt, named=False):
     if not alt:
         return "EMPTY"
-    return " ".join(('"%s"' % x[1]) if x[0] == "t" else (x[2] + x[3]) for x in alt)
+    return " ".join(("a%d=" % i if named else "") + (('"%s"' % x[1]) if x[0] == "t" else (x[2] + x[3])) for i, x in enumerate(alt))
+
+
+def normres(v):
+    """Results with objects of rules with named matches made comparable (class names differ
+    between the modular and the flattened grammar by construction)."""
+    if hasattr(v, "_pg_children_names"):
+        return ("obj", tuple((n, normres(getattr(v, n))) for n in v._pg_children_names))
+    if isinstance(v, list):
+        return [normres(x) for x in v]
+    if isinstance(v, tuple):
+        return tuple(normres(x) for x in v)
+    return v
 
 
 def file_texts(m):
@@ -269,7 +292,7 @@ def file_texts(m):
         for l in order:
             if (f, l) in m["tagged"]:
                 lines.append("@tag")
-            lines.append("%s: %s;" % (l, " | ".join(alt_text(a) for a in m["rules"][(f, l)])))
+            lines.append("%s: %s;" % (l, " | ".join(alt_text(a, (f, l) in m["named"]) for a in m["rules"][(f, l)])))
         if f == "root" and m["override"]:
             tgt, alts = m["override"]
             lines.append("%s: %s;" % (m["fqn"][tgt], " | ".join(alt_text(a) for a in alts)))
@@ -308,7 +331,8 @@ def flatten(m):
     for k in reach:
         alts = []
         for alt in rules[k]:
-            alts.append(" ".join(('"%s"' % x[1]) if x[0] == "t" else (flat_name(*x[1]) + x[3]) for x in alt) if alt else "EMPTY")
+            nm = k in m["named"]
+            alts.append(" ".join(("a%d=" % i if nm else "") + (('"%s"' % x[1]) if x[0] == "t" else (flat_name(*x[1]) + x[3])) for i, x in enumerate(alt)) if alt else "EMPTY")
             prods.append((flat_name(*k), tuple(x[1] if x[0] == "t" else flat_name(*x[1]) for x in alt)))
         if k in m["tagged"]:
             lines.append("@tag")
@@ -389,7 +413,7 @@ def one(ctx):
     ctx.count("grammars")
     ctx.count("shape." + m["shape"])
     for ft in m["feats"]:
-        ctx.count({"alias": "with_alias", "override": "with_override", "nested": "with_nested_reference", "rep": "with_repetition", "empty": "with_explicit_empty", "subdirs": "with_subdirectories", "keyword": "with_keyword", "actions": "with_action_names", "ignore_case": "with_ignore_case"}[ft])
+        ctx.count({"alias": "with_alias", "override": "with_override", "nested": "with_nested_reference", "rep": "with_repetition", "empty": "with_explicit_empty", "subdirs": "with_subdirectories", "keyword": "with_keyword", "actions": "with_action_names", "ignore_case": "with_ignore_case", "named": "with_named_matches"}[ft])
     if (lr is None) != (flr is None):
         ctx.case((str(texts), "lr-build"), True)
         kf2 = kf
@@ -441,8 +465,12 @@ def one(ctx):
             ctx.violation("language-differs-from-flattened", case, "modular grammar %s %r, the flattened grammar %s it" % ("accepts" if a.kind == "forest" else "rejects", w, "accepts" if want else "rejects"), known=kf)
             return
         if a.kind == "forest" and b.kind == "forest" and not a.loop and not b.loop and a.len <= 60 and b.len <= 60:
-            ra = sorted(repr(glr.call_actions(t)) for t in a.forest)
-            rb = sorted(repr(fglr.call_actions(t)) for t in b.forest)
+            try:
+                ra = sorted(repr(normres(glr.call_actions(t))) for t in a.forest)
+            except Exception as e:  # noqa: BLE001
+                ctx.violation("modular-actions-raise:" + type(e).__name__, case, "call_actions on a tree of the modular grammar: %s: %s" % (type(e).__name__, str(e)[:200]), known=kf)
+                return
+            rb = sorted(repr(normres(fglr.call_actions(t))) for t in b.forest)
             ctx.count("inputs.results_compared")
             if set(ra) != set(rb):
                 ctx.violation("results-differ-from-flattened", case, "GLR results %s vs flattened %s" % (ra[:2], rb[:2]), known=kf)
@@ -453,7 +481,7 @@ def one(ctx):
                 kb, vb = pgx.outcome(flr.parse, w)
             except (pgx.CaseTimeout, pgx.BudgetExceeded):
                 continue
-            if ka != kb or (ka == "ret" and repr(va) != repr(vb)):
+            if ka != kb or (ka == "ret" and repr(normres(va)) != repr(normres(vb))):
                 ctx.violation("lr-results-differ-from-flattened", case, "LR %s %s vs flattened %s %s" % (ka, repr(va)[:100], kb, repr(vb)[:100]), known=kf)
                 return
 
@@ -471,8 +499,12 @@ def replay(case, ctx):
             if a.kind != b.kind:
                 ctx.violation("language-differs-from-flattened", case, "modular %s, flattened %s" % (a.kind, b.kind))
             elif a.kind == "forest":
-                ra = sorted(repr(glr.call_actions(t)) for t in a.forest)
-                rb = sorted(repr(fglr.call_actions(t)) for t in b.forest)
+                try:
+                    ra = sorted(repr(normres(glr.call_actions(t))) for t in a.forest)
+                except Exception as e:  # noqa: BLE001
+                    ctx.violation("modular-actions-raise:" + type(e).__name__, case, str(e)[:200])
+                    return
+                rb = sorted(repr(normres(fglr.call_actions(t))) for t in b.forest)
                 if set(ra) != set(rb):
                     ctx.violation("results-differ-from-flattened", case, "GLR results differ")
     finally:
